@@ -180,7 +180,7 @@ func (o *wireOrigin) serve(c net.Conn, id int64) {
 			o.expMu.Unlock()
 		}
 		// postearly: a large upload WITHOUT Expect that the origin answers before it has read it
-		earlyAnswer := kind == "expectearly" || kind == "postearly"
+		earlyAnswer := kind == "expectearly" || kind == "postearly" || kind == "pipeearly"
 		if !earlyAnswer && kind != "expectclose" {
 			body, bodyOK = readBody()
 		}
@@ -291,6 +291,9 @@ func wireBody(tag, kind string) string {
 	}
 	if kind == "postearly" {
 		return "body-of-" + tag + strings.Repeat("p", 100000)
+	}
+	if kind == "pipeearly" {
+		return "body-of-" + tag + "-first-part" + "-second-part"
 	}
 	return "body-of-" + tag
 }
